@@ -44,7 +44,7 @@ Print Assumptions C14_nonvacuous.
 (* `spok --force --json` with no task name and a task named default (3) that is up to date: it runs *)
 Definition okc := {| c_cmd := [101%N]; c_out := []; c_err := []; c_status := 0 |}.
 Definition defs14 := [ {| td_name := 3; td_deps := []; td_lits := [0]; td_globs := []; td_cmds := [okc] |} ].
-Definition fl (force : bool) := {| f_quiet := false; f_json := true; f_force := force; f_show := false; f_vars := false; f_clean := false |}.
+Definition fl (force : bool) := {| f_quiet := false; f_json := true; f_force := force; f_show := false; f_vars := false; f_clean := false; f_debug := false |}.
 Example C14_default_task_forced :
   let s0 := apply_op_i (init_i (fun _ => None)) (Edit 0 (Some 1)) in
   let '(s1, o1) := invoke (fun _ l => l) defs14 [] s0 (fl false) [] in
